@@ -8,3 +8,5 @@ mod tree;
 
 pub use trace::Trace;
 pub use tree::{RegexTreeMap, UniqueRegexTreeMap};
+#[cfg(feature = "verif")]
+pub use tree::VerifTreeSnap;
